@@ -90,6 +90,9 @@ func c01Points(trace []drv.IOEvent, versions map[int]*model.Bucket, pageSizeOf f
 	var metaItem *pendItem
 	initSynced := false
 	for i, ev := range trace {
+		if ev.Failed {
+			continue // failed by injection = not performed: neither pending nor a barrier, and no crash point of its own
+		}
 		switch ev.Kind {
 		case "W":
 			it := pendItem{off: ev.Off, data: ev.Data, ev: i}
@@ -275,17 +278,31 @@ func c01CheckImage(img []byte, p c01Point, sub c01Subset, full bool) (*drv.Viola
 	return nil, tornMeta
 }
 
+// c01Failures makes failing commits a legal part of the history: an armed I/O fault (never the final sync
+// after the meta write - that case is C08's and leaves the outcome open) or the size limit. A failed commit
+// returned an error, so the state the crash oracle expects stays the one of the last successful commit.
+func c01Failures(e *drv.Env) {
+	e.AllowCommitErr = true
+	e.AfterFailure = func(e *drv.Env, err error) *drv.Violation {
+		if (e.Failed == nil || !e.FailedInTx) && !isMaxSize(err) {
+			return drv.Violf("commit failed with %v without an injected fault", err)
+		}
+		e.FailAt = 0
+		return e.CheckCommitted("after failed commit")
+	}
+}
+
 type c01Doc struct {
 	Ev     int    `json:"crash_after_event"`
 	Subset string `json:"subset"`
 }
 
 // c01Record executes log with I/O recording and returns the crash points.
-func c01Record(log []drv.Op) ([]c01Point, *drv.Violation) {
+func c01Record(log []drv.Op) ([]c01Point, int, *drv.Violation) {
 	e := drv.NewEnv("c01")
 	defer e.Cleanup()
 	e.RecordIO = true
-	e.AllowCommitErr = false
+	c01Failures(e)
 	type span struct {
 		from int
 		ps   int
@@ -299,7 +316,7 @@ func c01Record(log []drv.Op) ([]c01Point, *drv.Violation) {
 			spans = append(spans, span{from: len(e.Trace), o: *op.Opts})
 		}
 		if v := e.Apply(op); v != nil {
-			return nil, v
+			return nil, 0, v
 		}
 		if op.Op == drv.OpOpen || op.Op == drv.OpReopen {
 			spans[len(spans)-1].ps = e.PageSize
@@ -312,7 +329,7 @@ func c01Record(log []drv.Op) ([]c01Point, *drv.Violation) {
 		}
 	})
 	if out != nil {
-		return nil, out
+		return nil, 0, out
 	}
 	_ = e.CloseDB()
 	find := func(i int) span {
@@ -325,7 +342,7 @@ func c01Record(log []drv.Op) ([]c01Point, *drv.Violation) {
 		return s
 	}
 	pts := c01Points(e.Trace, e.Versions, func(i int) int { return find(i).ps }, func(i int) drv.OpenOpts { return find(i).o })
-	return pts, nil
+	return pts, e.Labels["commit-failed"], nil
 }
 
 func TestC01(t *testing.T) {
@@ -341,6 +358,16 @@ func TestC01(t *testing.T) {
 		cfg.MaxReaders = 2
 		cfg.CommitWeight = 25
 		cfg.ReopenWeight = 10
+		if rapid.IntRange(0, 2).Draw(rt, "withfaults") == 0 {
+			cfg.Faults, cfg.FaultKinds = 4, "W,S,T,GS,"
+		}
+		if rapid.IntRange(0, 7).Draw(rt, "maxsize") == 0 {
+			o := gen.Opts(rt, cfg)
+			o.MaxSize = rapid.SampledFrom([]int{48 << 10, 96 << 10, 200 << 10}).Draw(rt, "maxsizeval")
+			o.InitialMmapSize = 0
+			cfg.FixedOpts = &o
+		}
+		c01Failures(g)
 		failg := func(v *drv.Violation) {
 			drv.SetFailing()
 			log := g.Log
@@ -353,9 +380,13 @@ func TestC01(t *testing.T) {
 		log := g.Log
 		g.Cleanup()
 		// 2. record its I/O and enumerate crash points
-		pts, v := c01Record(log)
+		pts, nfailed, v := c01Record(log)
 		if v != nil {
 			failCase(rt, replayDoc{Property: "C01", Kind: "history", Ops: log}, v)
+		}
+		if nfailed > 0 {
+			col.Count("histories_with_failed_commits", 1)
+			col.Count("failed_commits", nfailed)
 		}
 		hh := hashOf(log)
 		images := 0
@@ -389,7 +420,7 @@ func TestC01(t *testing.T) {
 }
 
 func replayC01(t *testing.T, d replayDoc) *drv.Violation {
-	pts, v := c01Record(d.Ops)
+	pts, _, v := c01Record(d.Ops)
 	if v != nil {
 		return v
 	}
